@@ -29,6 +29,7 @@ type c11cfg struct {
 	filter  bool // reject payloads whose tag is "-0" (the first datagram of every remote)
 	batch   int
 	closer  bool
+	closer2 bool // a second thread closes the same connection at the same time and sends again afterwards
 	bound   int
 	partial bool
 	strict  bool // deviation = any non-default scheduling decision (many threads)
@@ -44,6 +45,9 @@ func (c c11cfg) name() string {
 	}
 	if c.closer {
 		s += " +close-and-return"
+	}
+	if c.closer2 {
+		s += " +second-concurrent-Close"
 	}
 	if c.strict {
 		s += " [strict deviations]"
@@ -74,6 +78,9 @@ func c11scenario(c c11cfg) *explore.Scenario {
 		openByRemote := map[string]int{}
 		closedOnce := false
 		lateInjected := false
+		lateBInjected := false
+		closeBegun := false
+		firstGen := map[string]int{} // generation (index in logs) of the first connection of each remote
 		var probed []string
 		fail := func(sig, format string, a ...any) {
 			if viol == nil {
@@ -124,6 +131,9 @@ func c11scenario(c c11cfg) *explore.Scenario {
 						fail("two-open-conns", "a second connection for remote %s was accepted while the first is still open", name)
 					}
 					lg := &connLog{remote: name, gen: len(logs)}
+					if _, ok := firstGen[name]; !ok {
+						firstGen[name] = lg.gen
+					}
 					logs = append(logs, lg)
 					zzvsched.GoNamed("reader-"+name, func() {
 						for {
@@ -135,10 +145,27 @@ func c11scenario(c c11cfg) *explore.Scenario {
 							lg.got = append(lg.got, string(buf[:n]))
 						}
 					})
+					if c.closer2 && !closedOnce && name == c.remotes[0] {
+						zzvsched.GoNamed("closer2", func() {
+							if !closeBegun {
+								closeBegun = true
+								openByRemote[name]-- // from the moment the first Close begins the connection no longer counts as open
+							}
+							_ = cn.Close()
+							// this Close has returned: a new datagram from that remote must create a fresh connection
+							pb := name + "-lateB"
+							sock.Inject(udpRemotes[name], []byte(pb))
+							injected[name] = append(injected[name], pb)
+							lateBInjected = true
+						})
+					}
 					if c.closer && !closedOnce && name == c.remotes[0] {
 						closedOnce = true
 						zzvsched.GoNamed("closer", func() {
-							openByRemote[name]-- // from the moment Close begins the connection no longer counts as open
+							if !closeBegun {
+								closeBegun = true
+								openByRemote[name]-- // from the moment Close begins the connection no longer counts as open
+							}
 							_ = cn.Close()
 							// afterwards a new datagram from that remote must create a fresh connection
 							p := name + "-late"
@@ -270,6 +297,19 @@ func c11scenario(c c11cfg) *explore.Scenario {
 						hasLate = hasLate || p == r+"-late"
 					}
 				}
+				if lateBInjected {
+					okB := false
+					for _, lg := range logs {
+						if lg.remote == r && lg.gen > firstGen[r] {
+							for _, p := range lg.got {
+								okB = okB || p == r+"-lateB"
+							}
+						}
+					}
+					if !okB {
+						return out, &explore.Violation{Sig: "C11 no-fresh-conn-after-close", Msg: c.name() + fmt.Sprintf(": a second, concurrent Close of the connection of %s had returned, yet the datagram sent afterwards did not arrive on a fresh connection; all reads: %s", r, out)}
+					}
+				}
 				if n < 2 || !hasLate {
 					return out, &explore.Violation{Sig: "C11 no-fresh-conn-after-close", Msg: c.name() + fmt.Sprintf(": after closing the connection of %s a new datagram from it did not arrive on a fresh connection; all reads: %s", r, out)}
 				}
@@ -382,6 +422,7 @@ type c12cfg struct {
 	late                 bool
 	lateNew              bool // a datagram from a remote the listener has never seen, racing with Close
 	twoClosers           bool // the listener is closed from two threads at once
+	connTwoClosers       bool // every accepted connection is closed from two threads at once
 	bound                int
 }
 
@@ -401,6 +442,9 @@ func (c c12cfg) name() string {
 	}
 	if c.twoClosers {
 		s += " +second-concurrent-listener-Close"
+	}
+	if c.connTwoClosers {
+		s += " +second-concurrent-conn-Close"
 	}
 	return s
 }
@@ -518,9 +562,17 @@ func c12scenario(c c12cfg) *explore.Scenario {
 						outcome = append(outcome, fmt.Sprintf("read:%d,%v", n, err != nil))
 					})
 				}
+				if c.connTwoClosers {
+					zzvsched.GoNamed("close2-"+x.name, func() {
+						x.closeBegun = true
+						if err := x.conn.Close(); err != nil {
+							fail("conn-close-error", "concurrent second conn Close returned %v", err)
+						}
+					})
+				}
 				zzvsched.GoNamed("close-"+x.name, func() {
 					// an accepted connection works until it is closed itself
-					if listenerCloseDone && !sock.Closed() {
+					if listenerCloseDone && !sock.Closed() && !c.connTwoClosers { // (with two closers the other one may already have closed it)
 						if _, err := x.conn.Write([]byte("reply-" + x.name)); err != nil {
 							fail("write-on-open-conn-failed", "Write on the open accepted connection %s failed after the listener was closed: %v", x.name, err)
 						}
@@ -637,6 +689,7 @@ func init() {
 				{remotes: []string{"a1", "b1"}, per: 2, backlog: 128, closer: true, bound: sb, strict: true},
 				// one remote keeps sending while its connection is being closed (few threads: a deeper bound is affordable)
 				{remotes: []string{"a1"}, per: 3, backlog: 128, closer: true, bound: sb + 1, strict: true},
+				{remotes: []string{"a1"}, per: 1, backlog: 128, closer: true, closer2: true, bound: sb, strict: true},
 			}
 			if tier == "thorough" {
 				cfgs = append(cfgs,
@@ -655,7 +708,7 @@ func init() {
 			}
 			return out
 		},
-		Rule:        "one remote sending every script of 5 (thorough 7) steps over {datagrams of 1000/1020/1021/1023/1 bytes, Read} so that unread datagrams fill the connection's receive ring to the byte; remotes {a:1, a:2, b:1} (same IP / different port forced) injecting 1-2 tagged datagrams each from their own threads, an accepter thread, one reader thread per accepted connection, optionally closing a connection and sending again; backlog {1,2,128}, accept filter {none, reject-first}, batch read {off,2,3 with partial batches}; every interleaving within the deviation bound over the scheduler-visible fake socket",
+		Rule:        "one remote sending every script of 5 (thorough 7) steps over {datagrams of 1000/1020/1021/1023/1 bytes, Read} so that unread datagrams fill the connection's receive ring to the byte; remotes {a:1, a:2, b:1} (same IP / different port forced) injecting 1-2 tagged datagrams each from their own threads, an accepter thread, one reader thread per accepted connection, optionally closing a connection (also from two threads at once) and sending again; backlog {1,2,128}, accept filter {none, reject-first}, batch read {off,2,3 with partial batches}; every interleaving within the deviation bound over the scheduler-visible fake socket",
 		Assumptions: []string{"OS socket and ipv4.PacketConn batching replaced by zzvsched/fakenet", "completeness is asserted only where nothing may be refused (backlog larger than the number of remotes, no concurrent Close)"}})
 	register(&Check{ID: "C12", YieldOnRelease: true,
 		Scenarios: func(tier string) []*explore.Scenario {
@@ -672,6 +725,8 @@ func init() {
 				{accepted: 0, unaccepted: 0, lateNew: true, pendingAccept: true, bound: b},
 				{accepted: 0, unaccepted: 1, twoClosers: true, bound: b},
 				{accepted: 1, unaccepted: 1, twoClosers: true, bound: b},
+				{accepted: 1, unaccepted: 0, connTwoClosers: true, bound: b},
+				{accepted: 2, unaccepted: 0, connTwoClosers: true, bound: 1},
 			}
 			if tier == "thorough" {
 				// unbounded (closed by the state cache) for the smallest lifecycles
@@ -686,6 +741,6 @@ func init() {
 			}
 			return out
 		},
-		Rule:        "0-2 accepted and 0-1 unaccepted connections; threads: listener Close (twice, then Accept; optionally from two threads at once), each connection's Close (twice, after a Write), a pending Accept, a pending Read, a late datagram; every interleaving within the deviation bound; invariant checked at the instant the fake socket is closed and whenever Accept returns a connection: socket closed => listener Close begun and no accepted connection unclosed; at quiescence: socket closed exactly once, no goroutine of package udp left, pending calls unblocked",
+		Rule:        "0-2 accepted and 0-1 unaccepted connections; threads: listener Close (twice, then Accept; optionally from two threads at once), each connection's Close (twice, after a Write; optionally from two threads at once), a pending Accept, a pending Read, a late datagram; every interleaving within the deviation bound; invariant checked at the instant the fake socket is closed and whenever Accept returns a connection: socket closed => listener Close begun and no accepted connection unclosed; at quiescence: socket closed exactly once, no goroutine of package udp left, pending calls unblocked",
 		Assumptions: []string{"that the kernel frees the port when net.UDPConn.Close returns is trusted, not explored"}})
 }
